@@ -38,7 +38,7 @@ pub const DEF: CheckDef = CheckDef {
     id: "C15",
     run,
     technique: "bounded-exhaustive enumeration of statement records (field alphabets, all records with <= d non-plain fields) for the CSV, Camt053 and Viseca importers; differential oracle: importer-built syntax tree versus okane's own parser applied to the text printed by the real ImportCmd::run; violating cases are reduced to their smallest violating sub-set of non-plain fields, which names the signature",
-    rule: "case = (shape, precision, record). 15 shapes: csv-basic (index columns, liability, code+payee split by a rewrite rule, note, commodity column, balance), csv-credit-debit (label columns, tab delimiter, a 50-column account name so that the amount column overflows), csv-multi (rate, secondary amount/commodity, charge, conversion mode), csv-template (payee = '{category} - {note}', new_to_old), camt-<source> for the 7 text elements a rewrite rule can copy into the payee (creditor, debtor, ultimate creditor/debtor name, remittance info, additional transaction/entry info) each with AcctSvcrRef as code and booking date != value date, camt-entry-only (no TxDtls), camt-numeric (amounts, currency, TxAmt+CcyXchg, charges, opening/closing balance), viseca-basic, viseca-fx. Text alphabet (21): plain, semicolon, lparen, rparen, star, bang, digit-date, double-space, tab, leading-blank, trailing-blank, newline, newline-indent (an indented posting line), newline-date (a dated header line), cr, word-tag, key-value, cjk, empty, equals-at, long. Numeric alphabet: plain, 1,234.50, -0.5, CHF 12.00, $1.46, .02, 0, 12.345, and absent/present for optional columns (Viseca: plain, 1'234.50, .02, 0, 5, 1.2.3, 12.345). Commodity alphabet: plain, empty, $, 'US D', BRK.B, 'A;B'. CSV amount/credit/debit/balance cells of csv-basic and csv-credit-debit additionally take the sign placements -$12.50, $-12.50, $-1,234.50, USD -20, -USD 20, -20 USD and are compared with an independent exact reading of the cell (sign rule of the shape applied). The configured operator of the charge-printing shapes (csv-multi, csv-template, camt-entry-only, camt-numeric, viseca-fx) takes plain, trailing newline, blank-padded, inner double blank, ';', inner newline. Every statement carries the tested record followed by one plain anchor record. Precision of CHF/USD/EUR/VYM in {none,2,4}. ALL records with <= 2 (quick) / <= 3 (thorough) non-plain fields. The four CSV shapes also carry a row choice: a date-less row (all cells empty but the payee) before / between / after the two records, which must not change the number of transactions. Anchor independence: the transaction (tree and printed text) of the plain anchor record must be identical to the one of the statement whose tested record is all plain (same configuration and statement-level fields); every record with one non-plain field less is also run with the file order of the two records swapped. Text fields also take Unicode white space at either end (U+3000 before / after, U+00A0 after, a note line made of U+00A0); the operator also U+3000/U+00A0 padding. Multi-statement family: Camt053 documents with 0..=3 Stmt elements and 0..=4 (thorough 5) plain entries distributed over the statements in every way x with/without opening balances x precision {none,2}: one transaction per entry (plus one per non-empty statement with an opening balance) in document order (record-count, record-sequence) and the usual round trip; documents okane rejects (no Stmt, a Stmt without Ntry) are DON'T-CARE. Amount-bearing cells also take the zero spellings 0.00, -0.00, -0 (Viseca 0.00). Secondary-amount reference: in csv-multi (extract, no charge), csv-template (no fees), camt-numeric (unsigned Amt, TxAmt, no charges) and viseca-fx the posting in the secondary commodity must be +|secondary| when the statement account is debited (minus sign in the amount cell, also on a zero / DBIT / purchase line) and -|secondary| otherwise. Date family: record dates on every day 25 Dec..7 Jan over 8 year boundaries (2018/19..2025/26, every week-day position of 1 January), 28/29 Feb, 1 Mar of 2020/2023/2024, CSV, and Camt053 / Viseca with an effective date 0/1/3/7 days later: built dates = statement dates (statement-date-differs) and the usual round trip. Plus the layout-boundary family: for one CSV, one Camt053 and one Viseca shape the configured account and the rewrite (counter) account (cleared and pending) take every display width 1..=64 (ASCII; CSV also names with wide CJK characters; thorough: full 64x64 product for CSV) x 4-5 amount spellings of different printed widths and both signs x precision {none,2,4} x with/without running balance. states = statements imported (incl. minimisation re-runs), transitions = transactions compared field by field",
+    rule: "case = (shape, precision, record). 15 shapes: csv-basic (index columns, liability, code+payee split by a rewrite rule, note, commodity column, balance), csv-credit-debit (label columns, tab delimiter, a 50-column account name so that the amount column overflows), csv-multi (rate, secondary amount/commodity, charge, conversion mode), csv-template (payee = '{category} - {note}', new_to_old), camt-<source> for the 7 text elements a rewrite rule can copy into the payee (creditor, debtor, ultimate creditor/debtor name, remittance info, additional transaction/entry info) each with AcctSvcrRef as code and booking date != value date, camt-entry-only (no TxDtls), camt-numeric (amounts, currency, TxAmt+CcyXchg, charges, opening/closing balance), viseca-basic, viseca-fx. Text alphabet (21): plain, semicolon, lparen, rparen, star, bang, digit-date, double-space, tab, leading-blank, trailing-blank, newline, newline-indent (an indented posting line), newline-date (a dated header line), cr, word-tag, key-value, cjk, empty, equals-at, long. Numeric alphabet: plain, 1,234.50, -0.5, CHF 12.00, $1.46, .02, 0, 12.345, and absent/present for optional columns (Viseca: plain, 1'234.50, .02, 0, 5, 1.2.3, 12.345). Commodity alphabet: plain, empty, $, 'US D', BRK.B, 'A;B'. CSV amount/credit/debit/balance cells of csv-basic and csv-credit-debit additionally take the sign placements -$12.50, $-12.50, $-1,234.50, USD -20, -USD 20, -20 USD and are compared with an independent exact reading of the cell (sign rule of the shape applied). The configured operator of the charge-printing shapes (csv-multi, csv-template, camt-entry-only, camt-numeric, viseca-fx) takes plain, trailing newline, blank-padded, inner double blank, ';', inner newline. Every statement carries the tested record followed by one plain anchor record. Precision of CHF/USD/EUR/VYM in {none,2,4}. ALL records with <= 2 (quick) / <= 3 (thorough) non-plain fields. The four CSV shapes also carry a row choice: a date-less row (all cells empty but the payee) before / between / after the two records, which must not change the number of transactions. Anchor independence: the transaction (tree and printed text) of the plain anchor record must be identical to the one of the statement whose tested record is all plain (same configuration and statement-level fields); every record with one non-plain field less is also run with the file order of the two records swapped. Text fields also take Unicode white space at either end (U+3000 before / after, U+00A0 after, a note line made of U+00A0); the operator also U+3000/U+00A0 padding. Multi-statement family: Camt053 documents with 0..=3 Stmt elements and 0..=4 (thorough 5) plain entries distributed over the statements in every way x with/without opening balances x precision {none,2}: one transaction per entry (plus one per non-empty statement with an opening balance) in document order (record-count, record-sequence) and the usual round trip; documents okane rejects (no Stmt, a Stmt without Ntry) are DON'T-CARE. Amount-bearing cells also take the zero spellings 0.00, -0.00, -0 (Viseca 0.00). Secondary-amount reference: in csv-multi (extract, no charge), csv-template (no fees), camt-numeric (unsigned Amt, TxAmt, no charges) and viseca-fx the posting in the secondary commodity must be +|secondary| when the statement account is debited (minus sign in the amount cell, also on a zero / DBIT / purchase line) and -|secondary| otherwise. Date family: record dates on every day 25 Dec..7 Jan over 8 year boundaries (2018/19..2025/26, every week-day position of 1 January), 28/29 Feb, 1 Mar of 2020/2023/2024, CSV, and Camt053 / Viseca with an effective date 0/1/3/7 days later: built dates = statement dates (statement-date-differs) and the usual round trip. Camt053 reference family: booking / value dates as DtTm with offsets -12:00..+14:00 (and +05:30, +05:45, -03:30) at 00:00, 00:30, 12:00, 23:30 (the record's date is the calendar date at the statement's own offset), and batch entries (DBIT / CRDT) with 1..=3 TxDtls carrying every combination of own indicators (each detail's own indicator decides its sign). Plus the layout-boundary family: for one CSV, one Camt053 and one Viseca shape the configured account and the rewrite (counter) account (cleared and pending) take every display width 1..=64 (ASCII; CSV also names with wide CJK characters; thorough: full 64x64 product for CSV) x 4-5 amount spellings of different printed widths and both signs x precision {none,2,4} x with/without running balance. states = statements imported (incl. minimisation re-runs), transitions = transactions compared field by field",
     assumptions: &[
         "the tree is built in the harness by the same public calls as ImportCmd::run (load_from_yaml, ConfigSet::select, import::import, Txn::to_double_entry) on the same scratch files, reading the file as UTF-8 bytes without encoding_rs_io (identical for the BOM-less UTF-8 statements generated here)",
         "text that the importer trims / splits / rejects before building the tree is not judged (tree vs re-read text only); records the importer rejects are DON'T-CARE",
@@ -726,6 +726,11 @@ struct CamtEntry<'a> {
     day: &'a str,
     /// booking date (printed as the effective date when it differs from the value date)
     booked: &'a str,
+    /// write the value / booking date as `<DtTm>` (the strings above are then RFC 3339 date-times)
+    day_dttm: bool,
+    booked_dttm: bool,
+    /// when non-empty: a batch entry with one `TxDtls` per element (reference, amount, debit) instead of the single one
+    batch: &'a [(String, String, bool)],
 }
 
 impl<'a> CamtEntry<'a> {
@@ -748,6 +753,9 @@ impl<'a> CamtEntry<'a> {
             tx_charge: None,
             day: "2024-01-05",
             booked: "2024-01-04",
+            day_dttm: false,
+            booked_dttm: false,
+            batch: &[],
         }
     }
     /// plain record whose k-th source element matches the Grocery rule
@@ -780,10 +788,24 @@ impl<'a> CamtEntry<'a> {
         let mut s = String::new();
         s.push_str("<Ntry>\n");
         s.push_str(&format!("<Amt Ccy=\"{}\">{}</Amt><CdtDbtInd>{}</CdtDbtInd><Sts>BOOK</Sts>\n", xml_escape(self.ccy), xml_escape(self.amt), ind));
-        s.push_str(&format!("<BookgDt><Dt>{}</Dt></BookgDt><ValDt><Dt>{}</Dt></ValDt>\n", self.booked, self.day));
+        let tag = |dttm: bool| if dttm { "DtTm" } else { "Dt" };
+        s.push_str(&format!("<BookgDt><{}>{}</{}></BookgDt><ValDt><{}>{}</{}></ValDt>\n", tag(self.booked_dttm), self.booked, tag(self.booked_dttm), tag(self.day_dttm), self.day, tag(self.day_dttm)));
         s.push_str("<BkTxCd><Domn><Cd>PMNT</Cd><Fmly><Cd>ICDT</Cd><SubFmlyCd>AUTT</SubFmlyCd></Fmly></Domn></BkTxCd>\n");
         s.push_str(&Self::charges_xml(self.entry_charge));
-        if self.txdtls {
+        if !self.batch.is_empty() {
+            s.push_str(&format!("<NtryDtls><Btch><NbOfTxs>{}</NbOfTxs></Btch>\n", self.batch.len()));
+            for (r, a, debit) in self.batch {
+                s.push_str(&format!(
+                    "<TxDtls><Refs><AcctSvcrRef>{}</AcctSvcrRef></Refs><Amt Ccy=\"{}\">{}</Amt><CdtDbtInd>{}</CdtDbtInd><RltdPties><Cdtr><Nm>{}</Nm></Cdtr></RltdPties></TxDtls>\n",
+                    xml_escape(r),
+                    xml_escape(self.ccy),
+                    xml_escape(a),
+                    if *debit { "DBIT" } else { "CRDT" },
+                    xml_escape(self.cdtr.unwrap_or("Creditor Ltd"))
+                ));
+            }
+            s.push_str("</NtryDtls>\n");
+        } else if self.txdtls {
             s.push_str("<NtryDtls><TxDtls>\n<Refs>");
             if let Some(r) = self.refr {
                 s.push_str(&format!("<AcctSvcrRef>{}</AcctSvcrRef>", xml_escape(r)));
@@ -1723,6 +1745,116 @@ fn date_outcome(env: &Env, c: &DateCase) -> Outcome {
     }
 }
 
+
+// ------------------------------------------------------------------------------------------------
+// Camt053 `DtTm` dates and batch entries (both need a reference that is independent of the built tree).
+//
+// DtTm: booking and / or value date written as RFC 3339 date-times with offsets -12:00 ..= +14:00 (every hour, plus
+// +05:30, +05:45, -03:30) at the local times 00:00, 00:30, 12:00, 23:30. The date of the record is the calendar date
+// at the statement's own offset (value date 2024-03-01, booking date 2024-03-02, or both 2024-03-01).
+// Batch: one entry (DBIT or CRDT) with 1..=3 TxDtls whose own indicators take every combination; each detail is one
+// transaction whose sign is decided by the detail's own indicator.
+
+#[derive(Clone, Debug)]
+enum CamtRefCase {
+    /// (offset in minutes, local time "HH:MM", which: 0 booking DtTm, 1 value DtTm, 2 both)
+    DtTm(i32, &'static str, u8),
+    /// (entry is debit, indicator (debit) of each detail, precision index)
+    Batch(bool, Vec<bool>, usize),
+}
+
+fn camt_ref_cases() -> Vec<CamtRefCase> {
+    let mut v = vec![];
+    let mut offsets: Vec<i32> = (-12..=14).map(|h| h * 60).collect();
+    offsets.extend([330, 345, -210]);
+    for off in offsets {
+        for time in ["00:00", "00:30", "12:00", "23:30"] {
+            for which in 0..3u8 {
+                v.push(CamtRefCase::DtTm(off, time, which));
+            }
+        }
+    }
+    for entry_debit in [true, false] {
+        for n in 1..=3usize {
+            for code in 0..(1u32 << n) {
+                let inds: Vec<bool> = (0..n).map(|i| code & (1 << i) != 0).collect();
+                for pi in 0..2 {
+                    v.push(CamtRefCase::Batch(entry_debit, inds.clone(), pi));
+                }
+            }
+        }
+    }
+    v
+}
+
+fn camt_ref_render(c: &CamtRefCase) -> Rendered {
+    match c {
+        CamtRefCase::DtTm(off, time, which) => {
+            let sign = if *off < 0 { '-' } else { '+' };
+            let o = format!("{}{:02}:{:02}", sign, off.abs() / 60, off.abs() % 60);
+            let value_local = NaiveDate::from_ymd_opt(2024, 3, 1).unwrap();
+            let booked_local = if *which == 2 { value_local } else { NaiveDate::from_ymd_opt(2024, 3, 2).unwrap() };
+            let day = if *which >= 1 { format!("{}T{}:00{}", value_local, time, o) } else { value_local.to_string() };
+            let booked = if *which != 1 { format!("{}T{}:00{}", booked_local, time, o) } else { booked_local.to_string() };
+            let mut e = CamtEntry::plain();
+            e.day = &day;
+            e.booked = &booked;
+            e.day_dttm = *which >= 1;
+            e.booked_dttm = *which != 1;
+            let edate = if booked_local != value_local { Some(booked_local) } else { None };
+            Rendered { config: camt_config(None, "creditor_name", "Okane Bank (fee)"), statement: camt_doc(&[e, CamtEntry::anchor(0)], Some("100"), Some("74.5")), ext: "xml", records: 3, expect: vec![], anchor_txn: None, payees: None, dates: Some((1, value_local, edate)) }
+        }
+        CamtRefCase::Batch(entry_debit, inds, pi) => {
+            let amounts = ["10.00", "30.00", "5.5"];
+            let batch: Vec<(String, String, bool)> = inds.iter().enumerate().map(|(k, d)| (format!("20240301/1/{}", k + 1), amounts[k].to_string(), *d)).collect();
+            let mut net = Q::ZERO;
+            let mut expect = vec![];
+            for (k, (_, a, d)) in batch.iter().enumerate() {
+                let q = Q::parse(a);
+                let signed = if *d { q.neg() } else { q };
+                net = net.add(signed);
+                let why = format!("detail {} of the batch: {} {}", k + 1, if *d { "DBIT" } else { "CRDT" }, a);
+                expect.push(Expect { txn: 1 + k, source: true, balance: false, commodity: None, value: signed, why: why.clone() });
+                expect.push(Expect { txn: 1 + k, source: false, balance: false, commodity: None, value: signed.neg(), why: format!("counter posting of {}", why) });
+            }
+            let total = format!("{}", net.abs());
+            let mut e = CamtEntry::plain();
+            e.amt = &total;
+            e.debit = *entry_debit;
+            e.batch = &batch;
+            let records = 2 + batch.len();
+            Rendered { config: camt_config(PRECS[*pi], "creditor_name", "Okane Bank (fee)"), statement: camt_doc(&[e, CamtEntry::anchor(0)], Some("100"), Some("74.5")), ext: "xml", records, expect, anchor_txn: None, payees: None, dates: None }
+        }
+    }
+}
+
+fn camt_ref_describe(c: &CamtRefCase) -> String {
+    let r = camt_ref_render(c);
+    format!("camt reference family: {:?}\n--- config ---\n{}--- statement (.xml) ---\n{}", c, r.config, r.statement)
+}
+
+fn camt_ref_outcome(env: &Env, c: &CamtRefCase) -> Outcome {
+    let r = camt_ref_render(c);
+    let prec = match c {
+        CamtRefCase::Batch(_, _, pi) => PRECS[*pi],
+        _ => None,
+    };
+    let j = match crate::fw::guarded(|| judge_rendered(env, &r, prec, None)) {
+        Ok(j) => j,
+        Err(sig) if sig.contains("harness bug") => panic!("{}", sig),
+        Err(sig) => Judgement::Bad { clause: format!("crash/{}", sig), detail: "panic while importing this statement".into() },
+    };
+    let (family, kind) = match c {
+        CamtRefCase::DtTm(off, _, which) => ("camt-dttm", format!("{}/{}", ["booking", "value", "both"][*which as usize], if *off == 0 { "utc" } else if *off < 0 { "west" } else { "east" })),
+        CamtRefCase::Batch(e, inds, _) => ("camt-batch", if inds.iter().all(|d| d == e) { "same-indicator".to_string() } else if inds.iter().all(|d| d != e) { "opposite-indicator".to_string() } else { "mixed-indicators".to_string() }),
+    };
+    match j {
+        Judgement::Rejected(cl) => Outcome::dont_care(format!("{}/{}", family, cl)),
+        Judgement::Ok { .. } => Outcome::pass(format!("{}/roundtrip-ok/{}", family, kind)),
+        Judgement::Bad { clause, detail } => Outcome::violation(format!("{}/{}:{}", clause, family, kind.replace('/', "-")), detail),
+    }
+}
+
 fn run(ctx: &mut Ctx) {
     let env = Env { shapes: shapes(), dir: oka::scratch_dir("c15"), memo: RefCell::new(HashMap::new()), last_config: RefCell::new(String::new()), runs: RefCell::new(0), compared: RefCell::new(0) };
     let maxdev = ctx.tier.pick(2usize, 3usize);
@@ -1812,6 +1944,20 @@ fn run(ctx: &mut Ctx) {
         }
         let (r0, c0) = (*env.runs.borrow(), *env.compared.borrow());
         ctx.case(|| date_describe(c), || date_outcome(&env, c));
+        let (r1, c1) = (*env.runs.borrow(), *env.compared.borrow());
+        ctx.count("states", r1 - r0);
+        ctx.count("transitions", c1 - c0);
+    }
+    // ---- Camt053 DtTm dates and batch entries ----
+    let camt_ref = camt_ref_cases();
+    ctx.fact("camt_dttm_and_batch_cases", camt_ref.len() as u64);
+    for c in &camt_ref {
+        if !ctx.next_is_mine() {
+            ctx.skip_cases(1);
+            continue;
+        }
+        let (r0, c0) = (*env.runs.borrow(), *env.compared.borrow());
+        ctx.case(|| camt_ref_describe(c), || camt_ref_outcome(&env, c));
         let (r1, c1) = (*env.runs.borrow(), *env.compared.borrow());
         ctx.count("states", r1 - r0);
         ctx.count("transitions", c1 - c0);
